@@ -19,7 +19,7 @@ COUNT = {"quick": 1500, "thorough": 25000}
 # C03 / C04 / C05 are also judged on interleaved (Level B) executions: BMonitors.v check_C03b / C04b / C05b
 BCOUNT = {"quick": 500, "thorough": 8000}
 BPIDS = ("C03", "C04", "C05", "C10")
-WHOLE_HISTORY = ("C03", "C04", "C05", "C11", "C17")
+WHOLE_HISTORY = ("C03", "C04", "C05", "C10", "C11", "C17")
 
 
 def gen(pid, tier, rng, n=None, poison=None):
